@@ -180,6 +180,44 @@ class GhostBoolector:
     def Srem(self, a, b):
         return self._bin(a, b, z3.SRem)
 
+    def Smod(self, a, b):
+        return self._bin(a, b, lambda x, y: x % y)          # z3py: % on bit-vectors is bvsmod (sign follows the divisor)
+
+    def Nand(self, a, b):
+        return self._bin(a, b, lambda x, y: ~(x & y))
+
+    def Nor(self, a, b):
+        return self._bin(a, b, lambda x, y: ~(x | y))
+
+    def Xnor(self, a, b):
+        return self._bin(a, b, lambda x, y: ~(x ^ y))
+
+    def Iff(self, a, b):
+        self._same(a, b)
+        if a.width != 1:
+            raise GhostBtorError("bit-width of 'e0' must be 1")
+        return Node(1, ~(a.term ^ b.term), self)
+
+    def Inc(self, a):
+        self._own(a)
+        return Node(a.width, a.term + 1, self)
+
+    def Dec(self, a):
+        self._own(a)
+        return Node(a.width, a.term - 1, self)
+
+    def Redor(self, a):
+        self._own(a)
+        return Node(1, b1(a.term != 0), self)
+
+    def Redand(self, a):
+        self._own(a)
+        return Node(1, b1(a.term == z3.BitVecVal(-1, a.width)), self)
+
+    def Concat(self, a, b):
+        self._own(a, b)
+        return Node(a.width + b.width, z3.Concat(a.term, b.term), self)
+
     def _shift(self, a, b, f):
         self._own(a, b)
         if a.width == b.width:
@@ -315,6 +353,11 @@ class GhostBoolector:
         return SymBits(self.model_values[k].z, node.width)
 
     def __getattr__(self, name):
+        import pyboolector as real
+        if not name.startswith("_") and hasattr(real.Boolector, name):
+            # the real solver has it, the ghost model does not: the checker cannot decide (never a violation, never a pass)
+            from .sym import Undecided
+            raise Undecided("the ghost Boolector model has no contract for Boolector.%s" % name)
         raise AttributeError("'pyboolector.Boolector' object has no attribute '%s'" % name)
 
 
